@@ -14,6 +14,7 @@ mod res;
 mod val;
 mod visit;
 mod w_defrag;
+mod w_dgram;
 mod w_flow;
 mod w_ser;
 mod w_stream;
@@ -47,6 +48,8 @@ fn default_runs(prop: Prop, tier: Tier) -> u64 {
         Prop::C07 => 300_000,
         Prop::C08 => 400_000,
         Prop::C09 => 300_000,
+        Prop::C10 => 300_000,
+        Prop::C16 => 150_000,
         _ => 100_000,
     };
     match tier {
